@@ -161,7 +161,8 @@ def cusip_checksum(base: str) -> str:
     """
 
     def encode(index, char):
-        num = {"*": 36, "@": 37, "#": 38}.get(char, int(char, 36))
+        special = {"*": 36, "@": 37, "#": 38}
+        num = special[char] if char in special else int(char, 36)
         return str(num * 2) if index % 2 else str(num)
 
     assert len(base) == 8
